@@ -24,17 +24,31 @@ inductive Ev
   | block (ch : List Val)
   | prune (frm to : Int)
 
+/-- the first `Save` of a start state on an empty database; the recorded sets are the state's
+`Validators` (initial height) and `NextValidators` (initial height + 1) -/
+def Sys.ofInitial (ih : Int) (st : State) : Option Sys :=
+  if st.validators.vals = [] then none else   -- a start without validators is out of scope
+  match save DB.empty st with
+  | none => none
+  | some db =>
+    some ⟨db, st, fun k => if k = ih then some st.validators
+                           else if k = ih + 1 then some st.nextValidators else none, ih⟩
+
 /-- genesis: `MakeGenesisState` + `Save` on an empty database -/
 def Sys.init (ih : Int) (valz : List Val) : Option Sys :=
   match genesisState ih valz with
   | .error _ => none
+  | .ok st => Sys.ofInitial ih st
+
+/-- genesis through the node's handshake: `MakeGenesisState`, then `Handshaker.ReplayBlocks` with an
+application whose InitChain returns the validator list `iv` (possibly empty), then `Save` -/
+def Sys.initHandshake (ih : Int) (valz iv : List Val) : Option Sys :=
+  match genesisState ih valz with
+  | .error _ => none
   | .ok st =>
-    if st.validators.vals = [] then none else   -- genesis without validators is out of scope
-    match save DB.empty st with
-    | none => none
-    | some db =>
-      some ⟨db, st, fun k => if k = ih then some st.validators
-                             else if k = ih + 1 then some st.nextValidators else none, ih⟩
+    match handshakeInit st valz iv with
+    | .ok st' => Sys.ofInitial ih st'
+    | _ => none
 
 def Sys.step (s : Sys) : Ev → Sys
   | .block ch =>
@@ -112,7 +126,8 @@ theorem load_of_inv (s : Sys) (hi : Inv s) (h : Int) (h1 : s.base ≤ h) (h2 : h
 
 theorem updateState_ok (st st' : State) (H : Int) (ch : List Val) (h : updateState st H ch = .ok st') :
     ∃ nv nv' c, increment nv 1 = some nv' ∧
-      st' = { st with lastBlockHeight := H, nextValidators := nv', validators := st.nextValidators, lhvc := c } ∧
+      st' = { st with lastBlockHeight := H, nextValidators := nv', validators := st.nextValidators,
+                      lastValidators := st.validators, lhvc := c } ∧
       (c = H + 1 + 1 ∨ (c = st.lhvc ∧ nv = st.nextValidators)) := by
   unfold updateState at h
   simp only at h
@@ -384,7 +399,7 @@ theorem newValidatorSet_full (valz : List Val) (vs : VSet) (h : newValidatorSet 
 
 theorem genesisState_ok (ih : Int) (valz : List Val) (st : State) (h : genesisState ih valz = .ok st) :
     ∃ vs, newValidatorSet valz = .ok vs ∧
-      st = { initialHeight := ih, lastBlockHeight := 0, validators := vs,
+      st = { initialHeight := ih, lastBlockHeight := 0, lastValidators := VSet.empty, validators := vs,
              nextValidators := (match increment vs 1 with | some s => s | none => vs),
              lhvc := ih, lhpc := ih } := by
   unfold genesisState at h
@@ -396,138 +411,206 @@ theorem genesisState_ok (ih : Int) (valz : List Val) (st : State) (h : genesisSt
       cases h
       exact ⟨vs, hvs, rfl⟩
 
+/-- what `load_exact` needs from a start state: height 0, last change at the initial height,
+and `NextValidators` exactly ONE rotation ahead of `Validators` -/
+structure Initial (ih : Int) (st : State) : Prop where
+  hih : st.initialHeight = ih
+  hlbh : st.lastBlockHeight = 0
+  hlhvc : st.lhvc = ih
+  hnext : increment st.validators 1 = some st.nextValidators
+
+theorem inv_ofInitial (ih : Int) (hih : 1 ≤ ih) (st : State) (hinit : Initial ih st)
+    (hfull0 : st.validators.vals ≠ [] → Full st.validators) (s0 : Sys)
+    (h : Sys.ofInitial ih st = some s0) : Inv s0 := by
+  unfold Sys.ofInitial at h
+  split at h
+  · cases h
+  · rename_i hne
+    have hfull : Full st.validators := hfull0 hne
+    have hnxt := hinit.hnext
+    have hfulln : Full st.nextValidators := increment_full _ _ _ hnxt
+    have hIH := hinit.hih
+    have hLBH := hinit.hlbh
+    have hC := hinit.hlhvc
+    generalize hV : st.validators = vs at *
+    generalize hN : st.nextValidators = nxt at *
+    split at h
+    · cases h
+    · rename_i db hsave
+      simp only [Option.some.injEq] at h
+      subst h
+      -- compute the saved table
+      unfold save at hsave
+      simp only [hLBH, hIH, hV, hN, hC, Int.zero_add, if_true] at hsave
+      unfold saveValidatorsInfo at hsave
+      have hnn : 0 ≤ ih + 1 := by omega
+      simp only [Int.lt_irrefl, gt_iff_lt, if_false, true_or, if_true, toProto_full _ hfull,
+        toProto_full _ hfulln, interval_eq, Int.tmod_eq_emod_of_nonneg hnn] at hsave
+      have hgt : ¬ ih > ih + 1 := by omega
+      have hne1 : ¬ ih + 1 = ih := by omega
+      simp only [gt_iff_lt] at hgt
+      simp only [hgt, if_false, hne1, false_or] at hsave
+      have hdb : db.vals = (Tbl.put (Tbl.put ([] : Tbl Info) ih ⟨ih, some vs⟩) (ih + 1)
+          ⟨ih, if (ih + 1) % 100000 = 0 then some nxt else none⟩) := by
+        by_cases hc : (ih + 1) % 100000 = 0
+        · simp only [hc, if_true, Option.some.injEq] at hsave ⊢
+          rw [← hsave]; rfl
+        · simp only [hc, if_false, Option.some.injEq] at hsave ⊢
+          rw [← hsave]; rfl
+      have hget : ∀ k, db.vals.get k =
+          if k = ih + 1 then some ⟨ih, if (ih + 1) % 100000 = 0 then some nxt else none⟩
+          else if k = ih then some ⟨ih, some vs⟩ else none := by
+        intro k
+        rw [hdb, Tbl.get_put, Tbl.get_put]
+        simp [Tbl.get]
+      have htip : tip st = ih + 1 := by
+        simp [tip, blockHeight, hLBH, hIH]
+      have hgood1 : Good db.vals (fun k => if k = ih then some vs else if k = ih + 1 then some nxt else none)
+          (ih + 1) ⟨ih, if (ih + 1) % 100000 = 0 then some nxt else none⟩ := by
+        by_cases hc : (ih + 1) % 100000 = 0
+        · simp only [hc, if_true]
+          constructor
+          · intro p hp; cases hp
+            exact ⟨by simp [hne1], hfulln⟩
+          · intro hn; cases hn
+        · simp only [hc, if_false]
+          constructor
+          · intro p hp; cases hp
+          · intro _
+            have hls : lastStoredHeightFor (ih + 1) ih = ih := by
+              rw [lsf_eq _ _ hnn]; split <;> omega
+            simp only [hls]
+            refine ⟨by omega, ⟨ih, some vs⟩, vs, nxt, ?_, rfl, hfull, ?_, by simp [hne1]⟩
+            · rw [hget]
+              have : ¬ ih = ih + 1 := by omega
+              simp [this]
+            · have : (ih + 1 - ih).toNat = 1 := by omega
+              rw [this]; exact incrTimes_one _ _ hnxt
+      refine ⟨hih, by show ih ≤ tip st; rw [htip]; omega, by show 1 ≤ st.initialHeight; omega,
+        by show 0 ≤ st.lastBlockHeight; omega, by show Full st.nextValidators; rw [hN]; exact hfulln,
+        by show (if tip st = ih then _ else _) = _; rw [htip, hN]; simp [hne1], ?_, ?_, ?_, ?_⟩
+      · intro info hinfo
+        show info.lhc = st.lhvc
+        have hinfo' : db.vals.get (tip st) = some info := hinfo
+        rw [htip, hget] at hinfo'
+        simp at hinfo'
+        rw [← hinfo', hC]
+      · intro k hk1 hk2
+        have hk2' : k ≤ tip st := hk2
+        rw [htip] at hk2'
+        have hk1' : ih ≤ k := hk1
+        by_cases hk : k = ih + 1
+        · subst hk
+          exact ⟨_, by rw [hget]; simp, hgood1⟩
+        · have hk' : k = ih := by omega
+          subst hk'
+          refine ⟨⟨k, some vs⟩, by rw [hget]; simp [hk], ?_⟩
+          constructor
+          · intro p hp; cases hp; exact ⟨by simp, hfull⟩
+          · intro hn; cases hn
+      · intro k info hk
+        rw [hget] at hk
+        by_cases hk1 : k = ih + 1
+        · subst hk1
+          simp at hk
+          subst hk
+          refine ⟨by omega, by show ih ≤ ih + 1; omega, ?_, ?_⟩
+          · by_cases hc : (ih + 1) % 100000 = 0 <;> simp [hc, hne1]
+          · intro k2 i2 hk2 hg2
+            rw [hget] at hg2
+            by_cases hk2e : k2 = ih + 1
+            · simp [hk2e] at hg2; subst hg2; exact ⟨Int.le_refl _, fun _ => rfl⟩
+            · have : ¬ k2 = ih := by omega
+              simp [hk2e, this] at hg2
+        · by_cases hk0 : k = ih
+          · subst hk0
+            simp [hk1] at hk
+            subst hk
+            refine ⟨hih, Int.le_refl _, by simp, ?_⟩
+            intro k2 i2 hk2 hg2
+            rw [hget] at hg2
+            by_cases hk2e : k2 = k + 1
+            · simp [hk2e] at hg2; subst hg2; exact ⟨Int.le_refl _, fun _ => rfl⟩
+            · by_cases hk2f : k2 = k
+              · subst hk2f
+                simp [hk1] at hg2; subst hg2; exact ⟨Int.le_refl _, fun _ => rfl⟩
+              · simp [hk2e, hk2f] at hg2
+          · simp [hk1, hk0] at hk
+      · intro k hk
+        have hk' : tip st < k := hk
+        rw [htip] at hk'
+        show db.vals.get k = none
+        rw [hget]
+        have h1 : ¬ k = ih + 1 := by omega
+        have h2 : ¬ k = ih := by omega
+        simp [h1, h2]
+
+theorem initial_of_genesis (ih : Int) (valz : List Val) (st : State)
+    (h : genesisState ih valz = .ok st) (hne : st.validators.vals ≠ []) :
+    Initial ih st ∧ Full st.validators := by
+  obtain ⟨vs, hvs, hst'⟩ := genesisState_ok _ _ _ h
+  have hvsne : vs.vals ≠ [] := by rw [hst'] at hne; exact hne
+  have hfull : Full vs := newValidatorSet_full _ _ hvs hvsne
+  obtain ⟨nxt, hnxt⟩ := increment_isSome vs hvsne
+  rw [hnxt] at hst'
+  simp only at hst'
+  subst hst'
+  exact ⟨⟨rfl, rfl, rfl, hnxt⟩, hfull⟩
+
 theorem inv_init (ih : Int) (hih : 1 ≤ ih) (valz : List Val) (s0 : Sys)
     (h : Sys.init ih valz = some s0) : Inv s0 := by
   unfold Sys.init at h
   split at h
   · cases h
   · rename_i st hst
-    split at h
+    apply inv_ofInitial ih hih st ?_ ?_ s0 h
+    · by_cases hne : st.validators.vals = []
+      · unfold Sys.ofInitial at h; simp [hne] at h
+      · exact (initial_of_genesis ih valz st hst hne).1
+    · intro hne; exact (initial_of_genesis ih valz st hst hne).2
+
+theorem handshakeInit_ok (st st' : State) (gv iv : List Val) (h : handshakeInit st gv iv = .ok st') :
+    (iv = [] ∧ st' = st) ∨
+    (∃ vs nx, newValidatorSet iv = .ok vs ∧ increment vs 1 = some nx ∧
+      st' = { st with validators := vs, nextValidators := nx }) := by
+  unfold handshakeInit at h
+  split at h
+  · split at h
     · cases h
-    · rename_i hne
-      obtain ⟨vs, hvs, hst'⟩ := genesisState_ok _ _ _ hst
-      have hvsne : vs.vals ≠ [] := by rw [hst'] at hne; exact hne
-      have hfull : Full vs := newValidatorSet_full _ _ hvs hvsne
-      obtain ⟨nxt, hnxt⟩ := increment_isSome vs hvsne
-      have hfulln : Full nxt := increment_full _ _ _ hnxt
-      rw [hnxt] at hst'
-      simp only at hst'
+    · rename_i vs hvs
       split at h
       · cases h
-      · rename_i db hsave
-        simp only [Option.some.injEq] at h
-        subst h
-        have hIH : st.initialHeight = ih := by rw [hst']
-        have hLBH : st.lastBlockHeight = 0 := by rw [hst']
-        have hV : st.validators = vs := by rw [hst']
-        have hN : st.nextValidators = nxt := by rw [hst']
-        have hC : st.lhvc = ih := by rw [hst']
-        clear hst' hst hne
-        simp only [hV, hN]
-        -- compute the saved table
-        unfold save at hsave
-        simp only [hLBH, hIH, hV, hN, hC, Int.zero_add, if_true] at hsave
-        unfold saveValidatorsInfo at hsave
-        have hnn : 0 ≤ ih + 1 := by omega
-        simp only [Int.lt_irrefl, gt_iff_lt, if_false, true_or, if_true, toProto_full _ hfull,
-          toProto_full _ hfulln, interval_eq, Int.tmod_eq_emod_of_nonneg hnn] at hsave
-        have hgt : ¬ ih > ih + 1 := by omega
-        have hne1 : ¬ ih + 1 = ih := by omega
-        simp only [gt_iff_lt] at hgt
-        simp only [hgt, if_false, hne1, false_or] at hsave
-        have hdb : db.vals = (Tbl.put (Tbl.put ([] : Tbl Info) ih ⟨ih, some vs⟩) (ih + 1)
-            ⟨ih, if (ih + 1) % 100000 = 0 then some nxt else none⟩) := by
-          by_cases hc : (ih + 1) % 100000 = 0
-          · simp only [hc, if_true, Option.some.injEq] at hsave ⊢
-            rw [← hsave]; rfl
-          · simp only [hc, if_false, Option.some.injEq] at hsave ⊢
-            rw [← hsave]; rfl
-        have hget : ∀ k, db.vals.get k =
-            if k = ih + 1 then some ⟨ih, if (ih + 1) % 100000 = 0 then some nxt else none⟩
-            else if k = ih then some ⟨ih, some vs⟩ else none := by
-          intro k
-          rw [hdb, Tbl.get_put, Tbl.get_put]
-          simp [Tbl.get]
-        have htip : tip st = ih + 1 := by
-          simp [tip, blockHeight, hLBH, hIH]
-        have hgood1 : Good db.vals (fun k => if k = ih then some vs else if k = ih + 1 then some nxt else none)
-            (ih + 1) ⟨ih, if (ih + 1) % 100000 = 0 then some nxt else none⟩ := by
-          by_cases hc : (ih + 1) % 100000 = 0
-          · simp only [hc, if_true]
-            constructor
-            · intro p hp; cases hp
-              exact ⟨by simp [hne1], hfulln⟩
-            · intro hn; cases hn
-          · simp only [hc, if_false]
-            constructor
-            · intro p hp; cases hp
-            · intro _
-              have hls : lastStoredHeightFor (ih + 1) ih = ih := by
-                rw [lsf_eq _ _ hnn]; split <;> omega
-              simp only [hls]
-              refine ⟨by omega, ⟨ih, some vs⟩, vs, nxt, ?_, rfl, hfull, ?_, by simp [hne1]⟩
-              · rw [hget]
-                have : ¬ ih = ih + 1 := by omega
-                simp [this]
-              · have : (ih + 1 - ih).toNat = 1 := by omega
-                rw [this]; exact incrTimes_one _ _ hnxt
-        refine ⟨hih, by show ih ≤ tip st; rw [htip]; omega, by show 1 ≤ st.initialHeight; omega,
-          by show 0 ≤ st.lastBlockHeight; omega, by show Full st.nextValidators; rw [hN]; exact hfulln,
-          by show (if tip st = ih then _ else _) = _; rw [htip, hN]; simp [hne1], ?_, ?_, ?_, ?_⟩
-        · intro info hinfo
-          show info.lhc = st.lhvc
-          have hinfo' : db.vals.get (tip st) = some info := hinfo
-          rw [htip, hget] at hinfo'
-          simp at hinfo'
-          rw [← hinfo', hC]
-        · intro k hk1 hk2
-          have hk2' : k ≤ tip st := hk2
-          rw [htip] at hk2'
-          have hk1' : ih ≤ k := hk1
-          by_cases hk : k = ih + 1
-          · subst hk
-            exact ⟨_, by rw [hget]; simp, hgood1⟩
-          · have hk' : k = ih := by omega
-            subst hk'
-            refine ⟨⟨k, some vs⟩, by rw [hget]; simp [hk], ?_⟩
-            constructor
-            · intro p hp; cases hp; exact ⟨by simp, hfull⟩
-            · intro hn; cases hn
-        · intro k info hk
-          rw [hget] at hk
-          by_cases hk1 : k = ih + 1
-          · subst hk1
-            simp at hk
-            subst hk
-            refine ⟨by omega, by show ih ≤ ih + 1; omega, ?_, ?_⟩
-            · by_cases hc : (ih + 1) % 100000 = 0 <;> simp [hc, hne1]
-            · intro k2 i2 hk2 hg2
-              rw [hget] at hg2
-              by_cases hk2e : k2 = ih + 1
-              · simp [hk2e] at hg2; subst hg2; exact ⟨Int.le_refl _, fun _ => rfl⟩
-              · have : ¬ k2 = ih := by omega
-                simp [hk2e, this] at hg2
-          · by_cases hk0 : k = ih
-            · subst hk0
-              simp [hk1] at hk
-              subst hk
-              refine ⟨hih, Int.le_refl _, by simp, ?_⟩
-              intro k2 i2 hk2 hg2
-              rw [hget] at hg2
-              by_cases hk2e : k2 = k + 1
-              · simp [hk2e] at hg2; subst hg2; exact ⟨Int.le_refl _, fun _ => rfl⟩
-              · by_cases hk2f : k2 = k
-                · subst hk2f
-                  simp [hk1] at hg2; subst hg2; exact ⟨Int.le_refl _, fun _ => rfl⟩
-                · simp [hk2e, hk2f] at hg2
-            · simp [hk1, hk0] at hk
-        · intro k hk
-          have hk' : tip st < k := hk
-          rw [htip] at hk'
-          show db.vals.get k = none
-          rw [hget]
-          have h1 : ¬ k = ih + 1 := by omega
-          have h2 : ¬ k = ih := by omega
-          simp [h1, h2]
+      · rename_i nx hnx
+        simp only [HsRes.ok.injEq] at h
+        exact Or.inr ⟨vs, nx, hvs, hnx, h.symm⟩
+  · rename_i hiv
+    split at h
+    · cases h
+    · simp only [HsRes.ok.injEq] at h
+      exact Or.inl ⟨by simpa using hiv, h.symm⟩
+
+theorem inv_initHandshake (ih : Int) (hih : 1 ≤ ih) (valz iv : List Val) (s0 : Sys)
+    (h : Sys.initHandshake ih valz iv = some s0) : Inv s0 := by
+  unfold Sys.initHandshake at h
+  split at h
+  · cases h
+  · rename_i st hst
+    split at h
+    · rename_i st' hhs
+      rcases handshakeInit_ok _ _ _ _ hhs with ⟨_, e⟩ | ⟨vs, nx, hvs, hnx, e⟩
+      · subst e
+        apply inv_ofInitial ih hih st' ?_ ?_ s0 h
+        · by_cases hne : st'.validators.vals = []
+          · unfold Sys.ofInitial at h; simp [hne] at h
+          · exact (initial_of_genesis ih valz st' hst hne).1
+        · intro hne; exact (initial_of_genesis ih valz st' hst hne).2
+      · obtain ⟨vs0, _, hst0⟩ := genesisState_ok _ _ _ hst
+        apply inv_ofInitial ih hih st' ?_ ?_ s0 h
+        · subst e; subst hst0
+          exact ⟨rfl, rfl, rfl, hnx⟩
+        · intro hne
+          subst e
+          exact newValidatorSet_full _ _ hvs hne
+    · cases h
 
 end Tmv.ValStore
